@@ -23,6 +23,7 @@ struct c08_events
   int handler_calls; int handler_cmd; const DBusString *handler_args;
   int process_command_calls;
 } G;
+DBusString *g_reply_buf;    /* where the replies of the callee contracts accumulate (auth->outgoing) */
 int g_pc_lines, g_pc_consumed; _Bool g_pc_last_was_begin;     /* process_command contract: lines / bytes taken from the front of incoming */
 static DBusCredentials c08_socket_creds, c08_authorized, c08_desired;
 
@@ -78,7 +79,7 @@ static DBusCredentials c08_socket_creds, c08_authorized, c08_desired;
 #define X_BEFORE_OK(a) (B (ST (a) == S_WFA) | B (ST (a) == S_WFD))
 #define X_INV_NOID(a) \
   (BIMP (X_BEFORE_OK (a) & B (g_dirty == 0), X_EMPTY ((a)->authorized_identity)) & BIMP (X_BEFORE_OK (a), g_mech_ok == 0) & \
-   BIMP (g_dirty != 0, X_BEFORE_OK (a) & (B (g_dirty == MECH_EXT) | B (g_dirty == MECH_SHA1) | B (g_dirty == MECH_ANON)) & X_IDENTITY_PARTIAL (a, g_dirty)))
+   BIMP (g_dirty != 0, (X_BEFORE_OK (a) | B (ST (a) == S_DISC)) & (B (g_dirty == MECH_EXT) | B (g_dirty == MECH_SHA1) | B (g_dirty == MECH_ANON)) & X_IDENTITY_PARTIAL (a, g_dirty)))
 /* (4) WaitingForData has a mechanism to feed the DATA to */
 #define X_INV_WFD(a) BIMP (ST (a) == S_WFD, B (MECHID ((a)->mech) != 0) & (B (g_dirty == 0) | B (g_dirty == MECHID ((a)->mech))))
 /* (5) DBUS_COOKIE_SHA1 second step: the challenge was issued for the keyring of the server's own user */
